@@ -216,8 +216,10 @@ Proof.
   cbn [bind]. change (Z.to_N 4) with 4.
   pose proof (g_thrift_ReadString_sim en (drop 4 buf) (wf_drop 4 buf W)) as S.
   destruct (r_string (drop 4 buf)) as [[name l]|e|w|] eqn:Hs; cbn [sim] in S;
-    [|destruct S as [[nm x] S]; rewrite S; cbn; eexists; reflexivity|rewrite S; reflexivity..].
-  rewrite S. cbn [bind zl fst snd is_nil gnil negb to_msg_err].
+    [|destruct S as [[nm x] S]; rewrite S; cbn [bind is_nil negb gerr_is to_msg_err_name];
+      change (ecode "thrift.errNegativeSize") with e_neg_size;
+      destruct (e =? e_neg_size)%Z; cbn; eexists; reflexivity|rewrite S; reflexivity..].
+  rewrite S. cbn [bind zl fst snd is_nil gnil negb to_msg_err to_msg_err_name].
   apply r_string_ok_small in Hs as [Hle Hsm]; [|apply wf_drop; exact W].
   rewrite drop_len in Hle by lia.
   rewrite wraps64_small by lia.
